@@ -3527,6 +3527,9 @@ func (t *CompensateEventDefinition) WaitForCompletion() (result bool, present bo
 	if t.WaitForCompletionField != nil {
 		present = true
 	}
+	if !present {
+		return
+	}
 	result = *t.WaitForCompletionField
 	return
 }
@@ -9537,6 +9540,9 @@ func (t *Process) IsExecutable() (result bool, present bool) {
 	if t.IsExecutableField != nil {
 		present = true
 	}
+	if !present {
+		return
+	}
 	result = *t.IsExecutableField
 	return
 }
@@ -10493,6 +10499,9 @@ func (t *ResourceParameter) SetType(value *QName) {
 func (t *ResourceParameter) IsRequired() (result bool, present bool) {
 	if t.IsRequiredField != nil {
 		present = true
+	}
+	if !present {
+		return
 	}
 	result = *t.IsRequiredField
 	return
